@@ -11,7 +11,7 @@ pub fn kinds_for(prop: &str) -> Vec<&'static str> {
         "C01" => vec!["model", "garbage", "clone-count"],
         "C02" => vec!["model", "garbage", "iter", "clone-count"],
         "C03" => REGISTRY_KINDS.to_vec(),
-        "C08" => vec!["model", "garbage", "clone-count", "shared-storage", "handle", "meta", "double-drop", "corrupt-drop", "dup", "dead-visible", "leak", "value-accounting", "len>cap", "guard"],
+        "C08" => vec!["model", "garbage", "clone-count", "shared-storage", "handle", "meta", "double-drop", "corrupt-drop", "dup", "dead-visible", "leak", "value-accounting", "len>cap", "guard", "rawparts"],
         "C09" => vec!["model", "clone-count", "lazy", "dup", "double-drop", "handle"],
         "C10" => vec!["capacity", "len>cap", "model", "garbage"],
         "C14" => vec!["iter", "model"],
@@ -86,6 +86,8 @@ pub fn run(ctx: &mut Ctx) {
         "C02" => {
             fam::exhaustive(ctx, "range", &cfgs, l, true, &fam::range_ops);
             fam::histories(ctx, "range-hist", &cfgs, &hist(thorough, false, true, false, false));
+            // the typed range handles keep yielding the right items when the vector grows under them
+            crate::special::c05_live_growth(ctx);
             scale(ctx);
             crate::special::c14_large(ctx);
             scale(ctx);
@@ -105,6 +107,7 @@ pub fn run(ctx: &mut Ctx) {
             crate::special::c08_clone_from(ctx);
             crate::special::meta_grid(ctx);
             crate::special::prealloc_backend(ctx);
+            crate::special::c17_builders(ctx);
             scale(ctx);
         }
         "C09" => {
